@@ -13,7 +13,7 @@ from attrs import field, frozen
 from attrs.validators import in_, instance_of
 
 from hpl.ast.base import HplAstObject
-from hpl.ast.expressions import HplExpression, HplThisMessage
+from hpl.ast.expressions import HplExpression, HplThisMessage, HplVarReference
 from hpl.ast.predicates import HplPredicate, HplVacuousTruth
 from hpl.errors import HplSanityError
 from hpl.types import TypeToken
@@ -144,7 +144,22 @@ class HplSimpleEvent(HplEvent):
     def __str__(self) -> str:
         alias = (' as ' + self.alias) if self.alias is not None else ''
         assert self.is_publish, f'event_type: {self.event_type}'
-        return f'{self.name}{alias} {self.predicate}'
+        predicate = self.predicate
+        if self.alias is not None and _has_bare_self_reference(predicate):
+            # `@alias` was replaced with the message itself, which has no spelling
+            # of its own unless it is the root of a field access (`yaw(@M)`)
+            predicate = predicate.replace_self_reference(HplVarReference(f'@{self.alias}'))
+        return f'{self.name}{alias} {predicate}'
+
+
+def _has_bare_self_reference(predicate: HplPredicate) -> bool:
+    for obj in predicate.iterate():
+        if obj.is_expression and obj.is_accessor and obj.is_field:
+            continue
+        for child in obj.children():
+            if child.is_expression and child.is_value and child.is_this_msg:
+                return True
+    return False
 
 
 @frozen
